@@ -54,7 +54,7 @@ def correspond(ctx, scale):
         heads, sep = [(1, False), (2, False), (2, True)][ci % 3]
         cosine = ci % 4 == 1
         ce = ci % 5 == 2
-        orth = ci % 6 == 3 and not cosine
+        orth = ci % 6 == 3
         masked = ci % 4 == 3
         cw = rng.choice([1.0, 0.25, 2.0])
         ow = rng.choice([10.0, 0.5]) if orth else 0.0
@@ -62,10 +62,23 @@ def correspond(ctx, scale):
         K = rng.choice([4, 6])
         kw = dict(dim=d * heads, codebook_dim=d, heads=heads, separate_codebook_per_head=sep, codebook_size=K, use_cosine_sim=cosine, commitment_weight=cw,
                   commitment_use_cross_entropy_loss=ce, orthogonal_reg_weight=ow)
-        if orth:
+        if orth and not cosine:
             kw.update(ema_update=False, learnable_codebook=True, orthogonal_reg_active_codes_only=(ci % 12 == 3), orthogonal_reg_max_codes=(3 if ci % 12 == 9 else None))
+        elif orth:
+            kw.update(orthogonal_reg_max_codes=(3 if ci % 24 == 9 else None))     # cosine codebooks cannot be 'learnable'; the penalty makes embed a Parameter, EMA stays on
         vq = VectorQuantize(**kw)
         vq.train()
+        if orth or ci % 2 == 0:
+            # some HISTORY before the call under test: a training step and an optimiser step on every parameter (moves a Parameter codebook,
+            # for cosine codebooks off the unit sphere), so that the formulas are checked against the codebook as it is, not as initialised
+            ps = [p_ for p_ in vq.parameters() if p_.requires_grad]
+            o_, i_, l_ = vq(torch.randn(2, 4, d * heads))
+            if ps and l_.requires_grad:
+                l_.sum().backward()
+                torch.optim.SGD(ps, lr=0.5).step()
+                for p_ in ps:
+                    p_.grad = None
+            dist['vq_with_history'] = dist.get('vq_with_history', 0) + 1
         b, nn_ = 2, 4
         x = torch.randn(b, nn_, d * heads)
         kwargs = dict(return_loss_breakdown=True, freeze_codebook=True)
